@@ -69,6 +69,8 @@ inst_rt = z3.Function("inst_rt", Val, Val, B)  # isinstance(v, c) for a run-time
 slen = z3.Function("slen", Val, I)
 truthy_other = z3.Function("truthy_other", Val, B)
 hashable = z3.Function("hashable", Val, B)
+idict = z3.Function("idict", Val, Val)  # obj.__dict__ : the instance dictionary (a dict object owned by obj)
+idict_owner = z3.Function("idict_owner", Val, Val)
 
 None_ = z3.Const("None_", Val)
 True_ = z3.Const("True_", Val)
@@ -175,6 +177,9 @@ _BUILTIN = {
     "RuntimeError": RuntimeError,
     "RecursionError": RecursionError,
     "StopIteration": StopIteration,
+    "Field": __import__("dataclasses").Field,
+    "property": property,
+    "FunctionType": __import__("types").FunctionType,
 }
 
 # repository classes the contracts mention: name -> (module, bases resolved from the AST)
@@ -189,6 +194,8 @@ _REPO_CLASS_MODULES = [
     "apischema.settings",
     "apischema.types",
     "apischema.objects.fields",
+    "apischema.fields",
+    "apischema.ordering",
     "apischema.conversions.conversions",
     "apischema.conversions.converters",
     "apischema.serialization.errors",
@@ -375,6 +382,8 @@ def base_axioms() -> List[z3.BoolRef]:
     ax.append(z3.ForAll([a_, b_], z3.Implies(z3.Or(isinst(a_, "str"), isinst(b_, "str")), py_eq(a_, b_) == (a_ == b_)), patterns=[py_eq(a_, b_)]))
     ax.append(z3.ForAll([a_, b_], z3.Implies(z3.And(cls(a_) == K("int"), cls(b_) == K("int")), py_eq(a_, b_) == (a_ == b_)), patterns=[py_eq(a_, b_)]))
     ax.append(z3.ForAll([v], slen(v) >= 0, patterns=[slen(v)]))
+    # instance dictionaries: a dict per object (injective), allocated with its owner, never the owner itself
+    ax.append(z3.ForAll([v], z3.And(cls(idict(v)) == K("dict"), idict_owner(idict(v)) == v, alloc0[idict(v)] == alloc0[v]), patterns=[idict(v)]))
     # abstract children raise ValidationError values that existed "before" (functional model)
     ax.append(
         z3.ForAll(
